@@ -11,17 +11,21 @@ SPEC = {
               rule="the real telemetryCounterName / parseStackPCs (injected exporters) on: 11 real crash reports written "
                    "through the real crashmonitor.Parent by child processes of the harness binary itself (nil dereference, "
                    "panic, index, nil map, inlined frames, methods, generics, crash in a non-first goroutine, 30-deep and "
-                   "300-deep recursion, deadlock), each compared with the frames runtime.Callers reported while unwinding; "
+                   "300-deep recursion, deadlock, a 200 KiB panic message, 20 frames of a function with a 300-byte name, a mix of "
+                   "long-named functions), each compared with the frames runtime.Callers reported while unwinding; "
                    "then per 20 cases: 8 rewrites of every non-PC field of a real report (messages, arguments, symbols "
                    "other than runtime.sigpanic, file paths, header fields, sentinel spelling, pc spelling 0x/0X/0b/0o/"
                    "octal/decimal/underscores, other goroutines), 5 outcome-changing mutations (sentinel missing/odd/late, "
                    "pairing shifted, invalid pc spellings incl. > 2^64, earlier ' pc=', sigpanic placement, frames "
                    "without pc, header and terminator variants, cut text, changed pcs, > 16 frames), 2 relocation pairs "
-                   "(sentinel and pcs shifted, incl. wrap-around), 3 synthetic reports, 2 random texts (one in 40 cases each "
+                   "(sentinel and pcs shifted, incl. wrap-around), 1 in 10: synthetic report over REAL pcs of functions with "
+                   "60..300-byte names (encoded name near / beyond 4096 bytes within 16 frames), 1 in 50: a real and a "
+                   "synthetic report each with and without an inserted non-PC line of 64 KiB..200 KB before the running "
+                   "goroutine, 3 synthetic reports, 2 random texts (one in 40 cases each "
                    "instead runs strconv.ParseUint(s,0,64) resp. fmt.Sscanf(line,\"sentinel %x\") directly on generated "
                    "numerals against the model's parse_uint0 / scan_sentinel). distinct = distinct "
                    "case lines; every case compares status, pc list and name with the model and evaluates the oracles "
-                   "(shape, 16-frame cap, length, equal projection -> equal name, equal pcs -> equal name, relocation "
+                   "(shape, 16-frame cap, length <= 4096 and truncation marker, equal projection -> equal name, equal pcs -> equal name, relocation "
                    "invariance, genuine frames) on the implementation's output"),
     ],
     "technique": "Coq proof (loop invariant: the one-pass parser of parseStackPCs factors through a phase-structured "
